@@ -11,6 +11,7 @@ import (
 	"sync"
 	"sync/atomic"
 	"testing"
+	"time"
 
 	"github.com/0chain/common/core/statecache"
 	"pgregory.net/rapid"
@@ -779,4 +780,91 @@ func TestRaceFreeRunning(t *testing.T) {
 			ev.Sample(map[string]any{"free_running_chains": nchains, "readers": nreaders, "blocks": len(blocks), "reader_lookups_while_committing": overlapSeen.Load()})
 		}
 	})
+}
+
+// A state cache whose link table is full (more than 2000 blocks in one chain): readers walk from the tip until they give
+// up, ask the writing blocks themselves, and ask the blocks a committer is adding on top at the same time. Under the
+// race detector; every hit must be the chain's value, a block's own committed write must be found.
+func TestRaceFullLinkTable(t *testing.T) {
+	seed := ev.SeedFor("TestRaceFullLinkTable")
+	n := 2003 + int(seed%30)
+	c := statecache.NewStateCache()
+	commit := func(hash, prev, key, val string) {
+		bc := statecache.NewBlockCache(c, statecache.Block{Hash: hash, PrevHash: prev})
+		tc := statecache.NewTransactionCache(bc)
+		if key != "" {
+			tc.Set(key, statecache.String(val))
+		}
+		tc.Commit()
+		bc.Commit()
+	}
+	commit("L0", "", "k", "v0")
+	for i := 1; i < n; i++ {
+		commit(fmt.Sprintf("L%d", i), fmt.Sprintf("L%d", i-1), "", "")
+	}
+	var mu sync.Mutex
+	failure := ""
+	fail := func(f string, a ...any) {
+		mu.Lock()
+		if failure == "" {
+			failure = fmt.Sprintf(f, a...)
+		}
+		mu.Unlock()
+	}
+	var tip atomic.Int64
+	tip.Store(int64(n - 1))
+	done := make(chan struct{})
+	var wg sync.WaitGroup
+	for r := 0; r < 3; r++ {
+		wg.Add(1)
+		go func(r int) {
+			defer wg.Done()
+			defer func() {
+				if p := recover(); p != nil {
+					fail("reader panic: %v", p)
+				}
+			}()
+			for i := 0; ; i++ {
+				select {
+				case <-done:
+					return
+				default:
+				}
+				top := tip.Load()
+				// from the tip: k was written more than 2000 links back; a hit must still be v0
+				if v, ok := c.Get("k", fmt.Sprintf("L%d", top)); ok && string(v.(statecache.String)) != "v0" {
+					fail("lookup k@L%d hit %q, the chain says v0", top, string(v.(statecache.String)))
+					return
+				}
+				// the committer's blocks: a block's own write is there once its commit has returned
+				if top >= int64(n) {
+					j := int64(n) + int64(i+r)%(top-int64(n)+1)
+					want := fmt.Sprintf("w%d", j)
+					if v, ok := c.Get(fmt.Sprintf("j%d", j), fmt.Sprintf("L%d", j)); !ok || string(v.(statecache.String)) != want {
+						fail("lookup j%d@L%d = %v, %v after that block's commit returned; it wrote %q", j, j, v, ok, want)
+						return
+					}
+				}
+			}
+		}(r)
+	}
+	// first the chain stands still: every walk from the tip runs through the 2000 links there are and gives up, while
+	// the counters are polled
+	for i := 0; i < 300; i++ {
+		c.Stats()
+		time.Sleep(100 * time.Microsecond)
+	}
+	for j := n; j < n+60; j++ {
+		commit(fmt.Sprintf("L%d", j), fmt.Sprintf("L%d", j-1), fmt.Sprintf("j%d", j), fmt.Sprintf("w%d", j))
+		tip.Store(int64(j))
+		if j%8 == 0 {
+			c.Stats()
+		}
+	}
+	close(done)
+	wg.Wait()
+	if failure != "" {
+		t.Fatalf("chain of %d+60 blocks: %s", n, failure)
+	}
+	ev.Case(fmt.Sprintf("full-link-table/%d", n), true, "readers-and-committer-on-a-full-link-table")
 }
